@@ -75,7 +75,7 @@ PROPS = [
     dict(id="C11", functions=ASKHUB + f("p/p2pmux", "(*muxCore).serveLoop$1$1") + f("s/vswarm", "(*SecureRealm).ask") + f("p/mbapp", "(*ask).complete") + f("s/sshswarm", "(*Swarm).Ask"),
          assumptions=COMMON + HUBS + ["sshswarm's connection table and SSH transport are behind trusted contracts (getConn, Conn.Send)"]),
     dict(id="C12", functions=TELLHUB + ASKHUB, assumptions=COMMON + HUBS),
-    dict(id="C13", functions=TELLHUB + ASKHUB, assumptions=COMMON + HUBS),
+    dict(id="C13", functions=TELLHUB + ASKHUB + f("s/udpswarm", "(*Swarm).Receive"), assumptions=COMMON + HUBS + ["net.UDPConn.ReadFromUDP blocks on the socket only (no cancellation, no deadline set by the caller): model"]),
     dict(id="C15", functions=MUX + DISPATCH, assumptions=COMMON + BINARY + ["the channel table (sync.Map) only holds swarms built by newMuxedSwarm: trusted contract on muxCore.getSwarm"]),
     dict(id="C17", functions=IDS, assumptions=COMMON + ["encoding/base64 Decode/Encode write only their destination; EncodedLen/DecodedLen are pure (assumed)",
          "x509.MarshalPublicKey (ASN.1) is behind a trusted contract: the marshal/parse round trip is not decided",
